@@ -106,6 +106,7 @@ func (p crossImm) forEach() map[string][]byte {
 }
 
 type immRunner struct {
+	keyPen
 	violBuf
 	tagBuf
 	c                         immCache
@@ -349,9 +350,9 @@ func (r *immRunner) Exec(line string) string {
 	switch t[0] {
 	case "hoa", "put":
 		sz, _ := strconv.Atoi(t[3])
-		return r.execAdd(t[0], unhx(t[1]), unhx(t[2]), sz)
+		return r.execAdd(t[0], r.k(unhx(t[1])), unhx(t[2]), sz)
 	case "rm":
-		k := unhx(t[1])
+		k := r.k(unhx(t[1]))
 		r.known[string(k)] = true
 		before := r.resident()
 		removed := r.c.remove(k)
